@@ -43,8 +43,8 @@ func c04Seeds(c *ev.Ctx) []xzSeed {
 	n := 12
 	maxLen := 600
 	if thorough(c) {
-		n = 30
-		maxLen = 1500
+		n = 120
+		maxLen = 2000
 	}
 	checks := []byte{xz.CRC32, xz.CRC64, xz.SHA256, 0}
 	for i := 0; i < n; i++ {
